@@ -284,6 +284,9 @@ def step (w : World) (ws : List String) : World × List String :=
     let name := bytesOfHex n
     let env' := w.env.filter (·.1 != name)
     ({ w with env := match optOfHex v with | some b => (name, b) :: env' | none => env' }, [])
+  -- a file that opens but cannot be read (the harness links it to /proc/self/mem): the model has no such thing and does
+  -- as if it were not there - a parse that includes it fails either way, which is all that is compared for these cases
+  | ["FILE", _, "unreadable", _] => (w, [])
   | ["FILE", p, kind, content] =>
     -- creating a file also creates its parent directories
     let path := normPath w.cwd (bytesOfHex p)
